@@ -135,7 +135,7 @@ func cmdWorker(args []string) int {
 			res.Harness = fmt.Sprintf("run %d seed %d: %s", idx, seed, out.Harness.Msg)
 			writeResult()
 			fmt.Fprintln(os.Stderr, "harness:", res.Harness)
-			return 2
+			return 3
 		}
 		res.Runs++
 		res.Events += ctx.Seq
@@ -232,7 +232,7 @@ func cmdExec(args []string) int {
 	}
 	switch {
 	case out.Harness != nil:
-		return 2
+		return 3
 	case out.Fail != nil:
 		return 1
 	}
